@@ -120,6 +120,19 @@ impl SharedCache {
     pub fn prune(&self) -> (bool, usize, usize, usize) {
         self.cache.lock().expect(MUTEX_POISON_MESSAGE).prune()
     }
+
+    /// Verification hook: a read-only snapshot of everything stored.
+    ///
+    /// # Panics
+    ///
+    /// If the mutex has been poisoned.
+    #[cfg(resolved_verif)]
+    pub fn verif_snapshot(&self) -> verif::Snapshot<DomainName, RecordType, RecordTypeWithData> {
+        self.cache
+            .lock()
+            .expect(MUTEX_POISON_MESSAGE)
+            .verif_snapshot()
+    }
 }
 
 impl Default for SharedCache {
@@ -219,6 +232,12 @@ impl Cache {
     /// Returns `(has overflowed?, current size, num expired, num pruned)`.
     pub fn prune(&mut self) -> (bool, usize, usize, usize) {
         self.inner.prune()
+    }
+
+    /// Verification hook: a read-only snapshot of everything stored.
+    #[cfg(resolved_verif)]
+    pub fn verif_snapshot(&self) -> verif::Snapshot<DomainName, RecordType, RecordTypeWithData> {
+        self.inner.verif_snapshot()
     }
 }
 
@@ -436,6 +455,45 @@ impl<K1: Clone + Eq + Hash, K2: Copy + Eq + Hash, V: PartialEq> PartitionedCache
         self.current_size += 1;
     }
 
+    /// Verification hook: a read-only snapshot of everything stored.
+    #[cfg(resolved_verif)]
+    pub fn verif_snapshot(&self) -> verif::Snapshot<K1, K2, V>
+    where
+        V: Clone,
+    {
+        let mut entries = Vec::new();
+        let mut partitions = Vec::new();
+        for (k1, partition) in &self.partitions {
+            partitions.push((
+                k1.clone(),
+                verif::nanos(partition.last_read),
+                verif::nanos(partition.next_expiry),
+                partition.size,
+            ));
+            for (k2, tuples) in &partition.records {
+                for (v, expiry) in tuples {
+                    entries.push((k1.clone(), *k2, v.clone(), verif::nanos(*expiry)));
+                }
+            }
+        }
+        verif::Snapshot {
+            current_size: self.current_size,
+            desired_size: self.desired_size,
+            entries,
+            partitions,
+            access_queue: self
+                .access_priority
+                .iter()
+                .map(|(k, p)| (k.clone(), verif::nanos(p.0)))
+                .collect(),
+            expiry_queue: self
+                .expiry_priority
+                .iter()
+                .map(|(k, p)| (k.clone(), verif::nanos(p.0)))
+                .collect(),
+        }
+    }
+
     /// Delete all expired records.
     ///
     /// Returns the number of records deleted.
@@ -579,6 +637,26 @@ pub mod verif {
             u64::MAX => None,
             n => Some(n),
         }
+    }
+
+    /// Read-only picture of the whole cache, with instants given as
+    /// nanoseconds since `base()`.
+    #[derive(Debug, Clone)]
+    pub struct Snapshot<K1, K2, V> {
+        pub current_size: usize,
+        pub desired_size: usize,
+        /// `(partition key, record key, value, expiry)` of every stored record.
+        pub entries: Vec<(K1, K2, V, u64)>,
+        /// `(partition key, last_read, next_expiry, size)` of every partition.
+        pub partitions: Vec<(K1, u64, u64, usize)>,
+        /// Contents of the access (LRU) queue: `(key, priority)`.
+        pub access_queue: Vec<(K1, u64)>,
+        /// Contents of the expiry queue: `(key, priority)`.
+        pub expiry_queue: Vec<(K1, u64)>,
+    }
+
+    pub fn nanos(t: std::time::Instant) -> u64 {
+        u64::try_from(t.saturating_duration_since(base()).as_nanos()).unwrap_or(u64::MAX - 1)
     }
 
     /// Stand-in for `std::time::Instant` in `Instant::now()` calls.
